@@ -1,6 +1,7 @@
 #!/bin/bash
 # C18: termination/idempotence half (in-process explorer), then determinism half (fresh processes)
 cd /verif
+case " $* " in *" --replay "*) exec /verif/target/release/vcheck C18 "$@";; esac
 /verif/target/release/vcheck C18 "$@"; a=$?
 python3 /verif/cli/c18_determinism.py "$@"; b=$?
 if [ $a -eq 2 ] || [ $b -eq 2 ]; then exit 2; fi
